@@ -310,7 +310,7 @@ impl Prop for C20 {
         Some("payloads of length <= 4 over 12 symbols (as command and as handshake), raw streams of length <= 5 over 6 symbols (after and instead of the handshake), execute parameter-block bodies of length <= 4 over 8 symbols for 0/1/2/9 declared parameters".into())
     }
     fn cases(&self, tier: Tier) -> u64 {
-        tier.pick(120_000, 3_000_000)
+        tier.pick(1000000, 8000000)
     }
     fn fuzz_plan(&self, tier: Tier) -> Vec<(&'static str, u64)> {
         if tier == Tier::Thorough {
